@@ -144,7 +144,7 @@ fn probe(acc: &mut Acc, version: Option<&'static str>, word: &str, pos: usize, p
 
 pub fn build(tier: Tier) -> Check<'static> {
     let mut c = Check::new("C13", tier, "6/C13");
-    c.rule = "(a) 8 version specifiers x (all 248 reserved words of any standard + 10 non-keywords) x 7 identifier positions inside a `begin_keywords region: rejected iff reserved in that version where only an identifier can stand, otherwise accepted with the word as one SimpleIdentifier leaf; (b) the same without directive (1800-2017 set); (c) every sequence of <= 3 (quick) / 4 (thorough) keyword-region segments with probe modules; (d) (a) for 3 versions behind every ordered pair of 6 leading directive forms; (e) `define <directive name> rejected; (f) on every tree of the seeds, the grammar sentences and the region programs no SimpleIdentifier is reserved in the set in force, recomputed from the directive nodes in tree order; non-trivial = every probe, distinct by construction".into();
+    c.rule = "(a) 8 version specifiers x (all 248 reserved words of any standard + 10 non-keywords) x 7 identifier positions inside a `begin_keywords region: rejected iff reserved in that version where only an identifier can stand, otherwise accepted with the word as one SimpleIdentifier leaf; (b) the same without directive (1800-2017 set); (c) every sequence of <= 4 (quick) / 5 (thorough) keyword-region segments with probe modules; (d) (a) for 3 versions behind every ordered pair of 6 leading directive forms; (e) `define <directive name> rejected; (f) on every tree of the seeds, the grammar sentences and the region programs no SimpleIdentifier is reserved in the set in force, recomputed from the directive nodes in tree order; non-trivial = every probe, distinct by construction".into();
     c.assumptions = vec!["keyword tables models/keywords/*.txt typed from Annex B / Table 22-x independently of keywords.rs".into()];
     let words: Vec<&'static str> = kwref::union_all().into_iter().chain(NON_KEYWORDS.iter().copied()).collect();
     let words = Arc::new(words);
@@ -181,7 +181,7 @@ pub fn build(tier: Tier) -> Check<'static> {
         }));
     }
     {
-        let sp = kwprogs::programs(0, tier.pick(3, 4));
+        let sp = kwprogs::programs(0, tier.pick(4, 5));
         c.parts.push(Part::new("keyword-regions", sp.len(), "nested / sequential / unclosed regions with probe modules", move |i, acc| {
             let p = sp.get(i);
             let src = kwprogs::render(&p);
